@@ -29,7 +29,7 @@ int usleep(useconds_t us) { (void)us; return 0; }
 #endif
 typedef struct { int err; int sock; } rr_in;
 DECL_INPUT(rr_in);
-//@job name=tls_record_recv props=C06 enforce=tls_record_recv replace=recv,tls_record_type_name,tls_protocol_name unwindset=tls_record_recv.*:4 partial=1 bounded=at-most-3-recv-calls-per-receive-loop(no-unwinding-assertion;loops-wait-on-EAGAIN-and-have-no-variant) trusted=recv timeout=1800 native=0
+//@job name=tls_record_recv props=C06 enforce=tls_record_recv replace=recv,tls_record_type_name,tls_protocol_name unwindset=tls_record_recv.*:4 partial=1 bounded=at-most-3-recv-calls-per-receive-loop(no-unwinding-assertion;loops-wait-on-EAGAIN-and-have-no-variant) trusted=recv timeout=3600 native=0
 void h_tls_record_recv(void)
 {
 	INPUT(rr_in, H);
